@@ -117,6 +117,11 @@ def generic_view(f):
 
 
 def render_main(P):
+    if P.get("selective"):
+        # only some names of the imported module are imported - NOT the names of their types
+        names = P["selective"]
+        imp = "Binde %s aus \"c04lib\" ein." % (names[0] if len(names) == 1 else ", ".join(names[:-1]) + " und " + names[-1])
+        return "\n".join(['Binde "Duden/Ausgabe" ein.', imp, ""] + ddp.rstmts(P["main"], 0)) + "\n"
     P = dict(P, funcs=[generic_view(f) if f.get("genview") else f for f in P["funcs"]])
     lines = ['Binde "Duden/Ausgabe" ein.', 'Binde "c04lib" ein.', ""] + TYPEDECLS + semgen.TYPEDECLS_SEM
     for sd in P["structs"]:
@@ -475,6 +480,12 @@ def make_units(cases):
         body = c.setup + semgen.print_value(c.expr, c.t, "c%d" % i) + [semgen.pr(lit(T("")), True)]
         units.append((prog([{"k": "block", "body": body}]), ("block", 0, False), c.key))
     units.append((prog([lib_uses_block()]), ("block", 0, True), "zoo:imported-module"))
+    # a selective import that brings in variables and functions but not the name of their Kombination: the rules about its fields hold all the same
+    sel = {"k": "block", "body": [var("c04_q", TZ, bin_("plus", {"k": "fld", "f": "px", "e": ident("lib_punkt")}, ident("lib_zahl")), False),
+                                  setv({"k": "fld", "f": "px", "l": lvid("lib_punkt")}, bin_("plus", ident("c04_q"), zl(1))),
+                                  {"k": "expr", "e": call("lib_setze", [("p", lvid("lib_punkt")), ("z", {"k": "fld", "f": "px", "e": ident("lib_punkt")})])},
+                                  {"k": "print", "e": {"k": "fld", "f": "px", "e": ident("lib_punkt")}, "nl": True}]}
+    units.append((dict(structs=[], funcs=[], nearly=0, main=[sel], selective=["lib_punkt", "lib_zahl", "lib_setze"]), ("block", 0, True), "zoo:selective-import"))
     # after the functions: names that exist only from here on (the scope of a call site, not of a function declared above), and for
     # the generic functions a call from the top level and one from a block with a local Konstante (a generic body is only checked when instantiated)
     for fi, f in enumerate(funcs):
